@@ -24,7 +24,11 @@ func main() {
 		if len(os.Args) < 4 {
 			usage()
 		}
-		p, err := loadProgram([]string{os.Args[2]}, nil)
+		var extra []string
+		if !strings.HasPrefix(os.Args[2], "github.com/dave/dst") {
+			extra = []string{os.Args[2]}
+		}
+		p, err := loadProgram([]string{os.Args[2]}, extra)
 		if err != nil {
 			fmt.Fprintln(os.Stderr, err)
 			os.Exit(2)
